@@ -43,6 +43,8 @@ pub enum Shape {
     Blobs,
     /// integer lattice: many points at exactly equal distances (ties in every ordering)
     Lattice,
+    /// 1..=4 distinct rows, each repeated (1 = all rows equal)
+    FewDistinct,
 }
 
 #[derive(Clone, Debug, Serialize, Deserialize)]
@@ -71,6 +73,7 @@ impl Cfg {
         match self.shape {
             Shape::Blobs => data::blobs(self.data_seed, self.n, self.p, self.blobs, 0.5),
             Shape::Lattice => data::lattice(self.data_seed, self.n, self.p, 6),
+            Shape::FewDistinct => data::few_distinct(self.data_seed, self.n, self.p, 1 + (self.data_seed % 4) as usize),
         }
     }
     fn nn(&self) -> CommonNearestNeighbour {
@@ -221,6 +224,8 @@ impl Runnable for Cfg {
             });
         }
         obs.class_if(self.shape == Shape::Lattice, "lattice_tied_distances");
+        obs.class_if(self.shape == Shape::FewDistinct, "degenerate_few_distinct_rows");
+        obs.class_if(self.shape == Shape::FewDistinct && self.data_seed % 4 == 0, "degenerate_all_rows_equal");
         obs.class_if(self.algo == Algo::Kernel && self.sparse_k > 0, "sparse_kernel");
         let mut clusters = 0usize;
         for r in runs.iter().take(1) {
@@ -250,7 +255,7 @@ pub fn strategy(tier: Tier) -> impl Strategy<Value = Cfg> {
         2 => Just(Algo::Kernel),
     ];
     let nn = prop_oneof![Just(Nn::Linear), Just(Nn::KdTree), Just(Nn::BallTree)];
-    let shape = prop_oneof![2 => Just(Shape::Blobs), 1 => Just(Shape::Lattice)];
+    let shape = prop_oneof![4 => Just(Shape::Blobs), 2 => Just(Shape::Lattice), 1 => Just(Shape::FewDistinct)];
     (
         (algo, nn, shape, any::<u64>()),
         (20usize..=max_n, 1usize..=4, 2usize..=7, 2usize..=6),
